@@ -16,19 +16,33 @@ M = D + "mod.rs"
 C = D + "cpr.rs"
 NOFMT = r"^(?!impl (std::)?(fmt::)?(Display|Debug) for)"   # rendering code matters to C01 only
 # (file, regex selecting item names) — None = every item of the file
+# slice pins (gen/pinlib.py `slice_name`): a part of a large item, between two markers, so that an edit elsewhere in
+# jet1090's 500-line `main` does not break the tie of a property that only depends on a few of its statements
+JM = "async fn main"
+JET_POS = [(JM, "let mut references = BTreeMap", "let app_tui"),               # per-sensor references
+           (JM, "let update_reference = match", "snapshot::update_snapshot(")]  # closure + both decode_position calls
+JET_OUT = [(JM, "let is_in = filters::Filters::is_in", "if app_dec.lock().await.should_quit")]  # filter -> stdout/file/Redis/history
 PINNED = {
     "C01": [(f, None) for f in DEC], "C03": [(f, NOFMT) for f in DEC],
-    "C07": [(f, NOFMT) for f in DEC], "C08": [(f, NOFMT) for f in DEC],
+    # C07: + the consumers of to_string (jet1090 ignores an Err, decode1090 unwraps)
+    "C07": [(f, NOFMT) for f in DEC] + [("crates/jet1090/src/main.rs", JET_OUT), ("crates/decode1090/src/main.rs", r"fn main|process_entries")],
+    "C08": [(f, NOFMT) for f in DEC],
     "C02": [(D + "crc.rs", None), (M, r"Message|IcaoParity|enum DF$|struct ICAO")],
     "C04": [(C, r"const |fn nl|fn modulo|fn airborne_position$|enum CPRFormat|struct Position")],
     "C05": [(C, r"const |fn nl|fn modulo|_with_reference|enum CPRFormat|struct Position")],
-    "C06": [(C, r"const |fn nl|fn modulo|fn airborne_position|_with_reference|decode_position|AircraftState|haversine|enum CPRFormat|struct Position|UpdateIf")],
+    # + the callers the property is anchored in (their closures and call conventions are COPIED into the harness:
+    #   jet1090 `alt < 5000` / per-sensor references, decode1090 `alt < 1000`, the Python binding's `&None`)
+    "C06": [(C, r"const |fn nl|fn modulo|fn airborne_position|_with_reference|decode_position|AircraftState|haversine|enum CPRFormat|struct Position|UpdateIf"),
+            ("crates/jet1090/src/main.rs", JET_POS),
+            ("crates/decode1090/src/main.rs", r"fn main|process_entries"),
+            ("python/src/lib.rs", r"fn decode_1090t_vec")],
     "C09": [("crates/rs1090/src/source/beast.rs", r"fn next_msg|enum DataSource|fn verif_collect")],
     "C10": [("crates/jet1090/src/dedup.rs", None), ("crates/decode1090/src/main.rs", r"fn main|process_entries")],
-    "C11": [("crates/jet1090/src/filters.rs", None), (M, r"enum DF$|ICAO|IcaoParity|struct ControlField|enum ControlFieldType")],
+    "C11": [("crates/jet1090/src/filters.rs", None), (M, r"enum DF$|ICAO|IcaoParity|struct ControlField|enum ControlFieldType"),
+            ("crates/jet1090/src/main.rs", JET_OUT)],
     # main.rs's loop is what the driver hook mirrors (decode -> decode_position -> update_snapshot)
     "C12": [("crates/jet1090/src/snapshot.rs", None), ("crates/jet1090/src/main.rs", r"async fn main"),
-            ("crates/jet1090/src/verif_driver.rs", None)],
+            ("crates/jet1090/src/verif_driver.rs", None), ("crates/jet1090/src/web.rs", r"pub async fn (all|icao24|track)")],
     "C13": [(M, r"decode_id13|gray2alt|AC13Field|IdentityCode"), (D + "bds/bds05.rs", r"decode_ac12|struct AirbornePosition|read_altitude|fn ")],
     "C14": [("crates/rs1090/src/data/tail.rs", None), ("crates/rs1090/src/data/patterns.rs", None)],
     "C15": [(D + "flarm.rs", None)],
@@ -37,7 +51,7 @@ PINNED = {
     "C17": [("crates/jet1090/src/main.rs", r"fn update|impl Jet1090|struct Jet1090|enum SortKey"),
             ("crates/jet1090/src/table.rs", r"fn build_table"), ("crates/jet1090/src/verif_driver.rs", None),
             ("crates/jet1090/src/tui.rs", None)],
-    "C18": [(D + "time.rs", None)],
+    "C18": [(D + "time.rs", None), ("crates/rs1090/src/source/sero.rs", r"pub async fn receiver")],
 }
 import re
 try:
@@ -53,8 +67,15 @@ for prop, files in PINNED.items():
         for name, text in pinlib.item_texts(os.path.join(repo, f)).items():
             if any(text.count(a) != text.count(b) for a, b in ("{}", "()", "[]")) or text[-1] not in "};":
                 sys.exit(f"{f} :: {name}: item text is not a balanced item (pinlib splitting bug?): …{text[-60:]}")
-        pins[prop][f] = {k: v for k, v in its.items() if pat is None or re.search(pat, k)}
-        if not pins[prop][f]:
+        if isinstance(pat, list):
+            names = [pinlib.slice_name(*sl) for sl in pat]
+            sel = pinlib.digests(os.path.join(repo, f), names)
+            if any(v is None for v in sel.values()):
+                sys.exit(f"{prop}: slice markers not found in {f}: {[k for k, v in sel.items() if v is None]}")
+        else:
+            sel = {k: v for k, v in its.items() if pat is None or re.search(pat, k)}
+        pins[prop].setdefault(f, {}).update(sel)
+        if not sel:
             sys.exit(f"{prop}: nothing selected in {f}")
 json.dump(pins, open(os.path.join(R, "gen", "pins.json"), "w"), indent=1, sort_keys=True)
 os.makedirs(os.path.join(R, "lean/Rs1090/Pins"), exist_ok=True)
